@@ -62,9 +62,9 @@ def _work_chunk(chunk):
 
 def run_all(cases, procs=None, chunk=8):
     procs = procs or core.NCPU
-    ctx = mp.get_context("fork")
+    ctx = mp.get_context("spawn")
     outs = [None] * len(cases)
-    pool = ctx.Pool(procs, maxtasksperchild=25)
+    pool = ctx.Pool(procs, maxtasksperchild=40)
     try:
         jobs = [(k, pool.apply_async(_work_chunk, (cases[k:k + chunk],))) for k in range(0, len(cases), chunk)]
         for k, j in jobs:
@@ -84,26 +84,42 @@ def gen_cases(rng, tier):
 
 
 def impl_batch(cases):
-    """Run (or fetch from the cache) the implementation on the whole case list."""
-    key = hashlib.sha256((src_hash() + json.dumps(cases, sort_keys=True)).encode()).hexdigest()[:24]
+    """Run the implementation on the case list; results are cached per case under the hash of the
+    sources (/repo/src/bluesky + the drivers), so engine properties with overlapping corpora share runs."""
     d = os.path.join(core.VERIF, ".cache", "engine")
     os.makedirs(d, exist_ok=True)
-    p = os.path.join(d, key + ".json")
+    p = os.path.join(d, src_hash() + ".jsonl")
+    known = {}
     if os.path.exists(p):
-        try:
-            return json.load(open(p))
-        except Exception:
-            pass
-    outs = run_all(cases)
-    outs = json.loads(json.dumps(outs, default=str))
-    tmp = p + ".%d.tmp" % os.getpid()
-    json.dump(outs, open(tmp, "w"))
-    os.replace(tmp, p)
-    # bound the cache
-    files = sorted((os.path.getmtime(os.path.join(d, f)), f) for f in os.listdir(d) if f.endswith(".json"))
-    for _, f in files[:-6]:
-        os.unlink(os.path.join(d, f))
-    return outs
+        for line in open(p):
+            try:
+                k, v = json.loads(line)
+                known[k] = v
+            except Exception:
+                pass
+    keys = [hashlib.sha256(json.dumps(c, sort_keys=True).encode()).hexdigest()[:24] for c in cases]
+    todo = [i for i, k in enumerate(keys) if k not in known]
+    if todo:
+        outs = run_all([cases[i] for i in todo])
+        # harness-level failures (a case timing out under load, a lost worker) are retried before they count
+        for attempt in range(2):
+            redo = [j for j, o in enumerate(outs) if o.get("errors")]
+            if not redo:
+                break
+            again = run_all([cases[todo[j]] for j in redo], procs=4, chunk=2)
+            for j, o in zip(redo, again):
+                outs[j] = o
+        outs = json.loads(json.dumps(outs, default=str))
+        with open(p, "a") as f:
+            for i, o in zip(todo, outs):
+                known[keys[i]] = o
+                # results with harness-level errors (timeouts under load) are not cached
+                if not o.get("errors"):
+                    f.write(json.dumps([keys[i], o]) + "\n")
+        files = sorted((os.path.getmtime(os.path.join(d, f)), f) for f in os.listdir(d))
+        for _, f in files[:-4]:
+            os.unlink(os.path.join(d, f))
+    return [known[k] for k in keys]
 
 
 def coq_term(case, obs):
